@@ -226,11 +226,16 @@ def justifiedB (rows : List (Nat × LS)) (tokens : List Mutex) (a : Access) : Bo
 /-- may a skeleton with this name inherit locks from its callers?  Only a function literal (`outer$n`: entered where it
     is written / where the parameter it is passed for is called) or a function whose own name (last segment) is not
     exported; an exported function or method can be entered from other packages with nothing held. -/
+def lastSeg : List Char → List Char → List Char
+  | [], acc => acc.reverse
+  | c :: cs, acc => if c = '.' then lastSeg cs [] else lastSeg cs (c :: acc)
+
 def inheritOk (name : String) : Bool :=
-  name.contains '$' ||
-    (match (name.splitOn ".").getLast? with
-     | some seg => (match seg.toList.head? with | some c => !c.isUpper | none => false)
-     | none => false)
+  let cs := name.toList
+  cs.contains '$' ||
+    (match lastSeg cs [] with
+     | c :: _ => !(decide (65 ≤ c.toNat) && decide (c.toNat ≤ 90))
+     | [] => false)
 
 /-- every skeleton with a non-empty entry lockset may have one -/
 def entryRootsOkB (names : List String) (entry : Trie LS) : Bool :=
